@@ -72,7 +72,9 @@ SPECS.update({
     "C12": dict(
         harness="ftamper", src=["harness/ftamper.cpp"], plan=tamper_plan("c12"), level="fault_enumeration",
         rule="union of the C05 modification corpus (10 base files), the C06 key set, the C11 malformed corpus and valid files cut to every length >= 48 and re-tagged with the key; one evaluation = verify and decrypt of the same (file,key); "
-             "oracle: equal results, verify leaves its output stream empty, input files byte-identical afterwards",
+             "oracle: equal results, verify leaves its output stream empty, input files byte-identical afterwards; "
+             "plus the real binary: -v, -d -o OUT and -d without -o on private copies of {valid, tampered, garbage, empty, cut} files named with and without .wenc, both keys: input intact, -v creates nothing, -v and -d -o agree",
+        post=lambda tier: __import__("vf.cli", fromlist=["c12_cli"]).c12_cli(tier),
         assumptions=ASSUME_FILE),
 })
 
@@ -117,7 +119,7 @@ SPECS.update({
         assumptions=ASSUME_LIB + ["bounded-alphabet claim: 2^256 pairs cannot be enumerated; every table entry, byte position and single-byte data path is"]),
     "C10": dict(
         harness="cryptolib", src=["harness/cryptolib.cpp"], plan=lib_plan("c10", sanitize="none"), level="exploration",
-        rule="objects from AesFactory::createCryMaster: 5 modes x 3 keys x 20 IVs (last k bytes 0xFF for k=0..16: counter carry through every depth, + 3 others) x ALL block sequences of length 0..4 over a 3-block alphabet (121; thorough: length 0..5 over 4 blocks = 1,365), "
+        rule="one AesFactory object through ALL operation sequences up to length 4 over {loadiv(A), loadiv(B), create(enc/dec, m1), create(enc/dec, m2)} for all 25 mode pairs, every live object checked block by block; objects from AesFactory::createCryMaster: 5 modes x 3 keys x 20 IVs (last k bytes 0xFF for k=0..16: counter carry through every depth, + 3 others) x ALL block sequences of length 0..4 over a 3-block alphabet (121; thorough: length 0..5 over 4 blocks = 1,365), "
              "plus streams of 300 and 65,539 blocks (thorough: also 2^20+3); working buffer at every offset 0..15 from a 16-byte boundary in turn, and every stream also through one reused 16-byte block; encryptor == EVP (no padding), decryptor(encryptor output) == input, decryptor == EVP decrypt; distinct = (mode, IV kind, stream length class)",
         assumptions=ASSUME_LIB),
     "C16": dict(
